@@ -404,7 +404,7 @@ def copy_tree(dst):
 
 # ------------------------------------------------------------------ real builds
 DISTS = ['arch', 'debian', 'ubuntu', 'opensuse', 'whonix']
-ABIVERS = [(3, '3.0'), (4, '4.0'), (4, '4.1')]
+ABIVERS = [(a, v) for a in (3, 4) for v in ('3.0', '4.0', '4.1')]   # ABI and version are independent options
 MODES = ['none', 'complain', 'enforce']
 
 
